@@ -1,6 +1,7 @@
 import Pike.Model.Race
 import Pike.Props.C08
 import Pike.Props.C06
+import Pike.Facts
 /-
 C20 — concurrent requests, purges and reloads never corrupt shared state.
 Three layers: (1) the lockset theorem about abstract executions, (2) the extracted access table
@@ -12,6 +13,9 @@ net/http, sync.Map, atomics), and that the syntactic lock scopes are the dynamic
 namespace Pike
 namespace C20
 open Race
+
+/-- Obligation on the extracted facts: pike's own code uses no `sync.Pool` — no value that one request holds is backed by memory another request writes (the models treat them as immutable values). -/
+theorem facts_no_pooled_buffers : Facts.syncPoolSites = [] := by decide
 
 /-- (1) FULL STATEMENT about executions: under mutex semantics, if every write of a location
 holds lock `l` in write mode and every read holds it in read or write mode, any two conflicting
